@@ -40,6 +40,8 @@ def MaybeOwned.Owned : Nat := 17
 def MaybeOwned.Borrowed : Nat := 18
 def Direction.Next : Nat := 19
 def Direction.Prev : Nat := 20
+def Kind.Root : Nat := 23
+def Kind.Child : Nat := 24
 def ptr : Nat := 22                 -- a raw pointer the `Sem` handed out: `*p` and `*p = v` are the `Sem`'s
 def Ordering.Relaxed : Nat := 30
 def Ordering.Release : Nat := 31
